@@ -700,8 +700,40 @@ def push_outside(rng, tree, valid):
     return v
 
 
+def text_forms(rng, x):
+    """the number / code `x` written as text, the ways int() / float() / a lenient parser would still read it: "a JSON
+    string taken as a number" at a leaf that holds exactly that number"""
+    if isinstance(x, bool):
+        return [str(x), str(x).lower(), str(int(x))]
+    forms = [str(x), ' %s' % x, '%s\n' % x, '+%s' % x if x >= 0 else '%s ' % x]
+    if isinstance(x, int):
+        forms += ['%d.0' % x, '%de0' % x, '%#x' % x, '0%d' % x if x >= 0 else '-0%d' % -x, '%d_0' % x]
+    else:
+        forms += [repr(x), '%g' % x, '%.3f' % x]
+    return [rng.choice(forms[:2]), rng.choice(forms[2:])]
+
+
 def leaf_relatives(rng, lt, pv, wire):
     """offers that are (or look) numerically equal to the leaf value `pv` held, of another kind, or just beside it"""
+    out = _leaf_relatives(rng, lt, pv, wire)
+    t = lt['t']
+    try:
+        if t == 'enum':
+            out += text_forms(rng, int(pv.value))
+        elif t == 'int':
+            out += text_forms(rng, int(pv))
+        elif t == 'bool':
+            out += text_forms(rng, bool(pv))
+        elif t == 'double' or (t == 'scaled' and not wire):
+            out += text_forms(rng, float(pv))
+        elif t == 'scaled':
+            out += text_forms(rng, int(round(float(pv) / _f(lt['scale']))))
+    except (OverflowError, ValueError):
+        pass
+    return out
+
+
+def _leaf_relatives(rng, lt, pv, wire):
     t = lt['t']
     out = []
     if t == 'enum':
@@ -792,3 +824,112 @@ def relative_candidates(rng, tree, prev, wire, n):
         rot = list(base[1:]) + [base[0]]
         out.append(rot if isinstance(base, list) else tuple(rot))
     return out
+
+
+# ---------------------------------------------------------------------------------------------
+# candidates of unusual SIZE (many members / elements / characters / digits, deep nesting)
+# ---------------------------------------------------------------------------------------------
+# The other streams offer every KIND at every position, but only in small instances (containers of at most three
+# members, short strings, integers of at most 400 digits).  Code on the refusal path - the helpers that build the
+# error text, the wrappers that re-raise - sees every candidate, so it has to be total for candidates of every size.
+# A big value is described by a *recipe* (so that a case whose value cannot travel as JSON text - an int beyond the
+# str-conversion digit limit, nesting beyond the recursion limit - can still be written to a replay file).
+SIZE_CAT = [9, 17, 33, 41, 64, 100, 129, 257, 1000]
+SIZE_CAT_BIG = SIZE_CAT + [4096, 10007, 65537]
+DIGIT_CAT = [17, 100, 400, 1000, 4299, 4300, 4301, 5000, 20000]      # decimal digits of an int (10**n has n+1)
+DEPTH_CAT = [5, 20, 60]
+DEPTH_CAT_UNMODELLED = [900, 1100, 3000]                                 # around and beyond the recursion limit
+SIZE_ELEMS = [0, 1, -1, 7, 1.5, True, None, 'a', '', 'abc']
+
+
+def _elem(rng, i, mixed):
+    return SIZE_ELEMS[(i * 7 + mixed) % len(SIZE_ELEMS)] if mixed else i
+
+
+def build_big(recipe):
+    """the value a recipe (a JSON-able list) describes"""
+    kind, n = recipe[0], recipe[1]
+    if kind == 'object':            # JSON object / dict with n members
+        return {'k%d' % i: _elem(None, i, recipe[2]) for i in range(n)}
+    if kind == 'object-of-objects':
+        return {'k%d' % i: {'a': i} for i in range(n)}
+    if kind == 'array':             # JSON array / list with n elements
+        return [_elem(None, i, recipe[2]) for i in range(n)]
+    if kind == 'tuple':
+        return tuple(_elem(None, i, recipe[2]) for i in range(n))
+    if kind == 'array-of-arrays':
+        return [[i, 'a'] for i in range(n)]
+    if kind == 'array-of-pairs':    # what dict() accepts
+        return [['k%d' % i, i] for i in range(n)]
+    if kind == 'string':
+        unit = recipe[2]
+        return (unit * (n // len(unit) + 1))[:n]
+    if kind == 'bytes':
+        return bytes(i % 256 for i in range(n))
+    if kind == 'int':               # n+1 decimal digits
+        return recipe[2] * 10 ** n
+    if kind == 'nest-array':        # [[[...]]] n levels deep
+        v = recipe[2]
+        for _ in range(n):
+            v = [v]
+        return v
+    if kind == 'nest-tuple':
+        v = recipe[2]
+        for _ in range(n):
+            v = (v,)
+        return v
+    if kind == 'nest-object':
+        v = recipe[2]
+        for _ in range(n):
+            v = {'a': v}
+        return v
+    raise ValueError('bad recipe %r' % (recipe,))
+
+
+def recipe_travels(recipe):
+    """can the value of this recipe be written as JSON text (to the Lean side, to a replay file)?  An int with more
+    digits than the interpreter's str-conversion limit and a value nested deeper than the encoders recurse can not."""
+    kind, n = recipe[0], recipe[1]
+    if kind == 'int':
+        return n + 1 <= 4300
+    if kind.startswith('nest-'):
+        return n <= max(DEPTH_CAT)
+    return True
+
+
+def big_recipes(rng, wire, big=False):
+    """one recipe of every family, sizes drawn from the catalogues (`wire`: only what json.loads can produce)"""
+    # the very big sizes only now and then (thorough tier): a run holds all its cases in memory
+    n = lambda: rng.choice(SIZE_CAT_BIG[len(SIZE_CAT):]) if big and rng.random() < 0.01 else rng.choice(SIZE_CAT)
+    mixed = lambda: rng.choice([0, 1, 2, 3])
+    out = [['object', n(), mixed()], ['object', n(), 0], ['object-of-objects', n()],
+           ['array', n(), mixed()], ['array', n(), 0], ['array-of-arrays', n()], ['array-of-pairs', n()],
+           ['string', n() * rng.choice([1, 1, 10]), rng.choice(['x', 'ab', 'ü', '€', '5', '\U0001d11e', 'YWJj', ' '])],
+           ['int', rng.choice([d for d in DIGIT_CAT if not wire or d + 1 <= 4300]), rng.choice([1, -1])],
+           ['nest-array', rng.choice(DEPTH_CAT), rng.choice([1, 'a', None])],
+           ['nest-object', rng.choice(DEPTH_CAT), rng.choice([1, 'a', None])]]
+    if not wire:
+        out += [['tuple', n(), mixed()], ['bytes', n()], ['nest-tuple', rng.choice(DEPTH_CAT), 1],
+                ['int', rng.choice(DIGIT_CAT), rng.choice([1, -1])],
+                [rng.choice(['nest-array', 'nest-tuple', 'nest-object']), rng.choice(DEPTH_CAT_UNMODELLED), 1]]
+    return out
+
+
+def size_candidates(rng, value, wire, cap, big=False):
+    """[(path, recipe)]: a value of unusual size (`build_big(recipe)`) for a position of `value`; `cap` recipes of
+    different families, the first one at the root, the others spread over the positions"""
+    pos = list(positions(value))
+    recipes = big_recipes(rng, wire, big)
+    rng.shuffle(recipes)
+    out = []
+    for i, rec in enumerate(recipes[:cap]):
+        p = pos[(i * 3 + rng.randrange(len(pos))) % len(pos)] if i else ()
+        if i == 1 and len(pos) > 1:
+            p = rng.choice(pos[1:])
+        out.append((p, rec))
+    return out
+
+
+# what a command function / a driver hands back when it has no answer (a missing `return` on one branch, a `dict.get`
+# miss, an empty reply of the hardware): offered at the result position of every command of the result stream
+NO_ANSWER = [None, '', b'', (), [], {}, 0, False, 0.0, NAN, 'None', 'null']
